@@ -3,6 +3,7 @@ package props
 import (
 	"fmt"
 	"github.com/gdamore/tcell/v2"
+	"golang.org/x/text/encoding/charmap"
 	"os"
 	"runtime"
 	"strings"
@@ -146,7 +147,12 @@ func screenProps(r *core.Run, prop string) {
 				}
 				w2, h2, ops2, v2 := shrink(se, w, h, ops, execOpts{props: armed}, v)
 				sig := v2.cat + "|" + se.family() + "|" + opShape(ops2)
-				r.Violate(sig, fmt.Sprintf("%s %dx%d: %s :: history: %s", se.label(), w2, h2, v2.what, shadow.OpsString(ops2)),
+				loc := ""
+				if phase == "latin1" {
+					loc = " (LC_ALL=en_US.ISO8859-1)"
+					sig += "|ISO8859-1"
+				}
+				r.Violate(sig, fmt.Sprintf("%s%s %dx%d: %s :: history: %s", se.label(), loc, w2, h2, v2.what, shadow.OpsString(ops2)),
 					map[string]any{"configuration": se.label(), "w": w2, "h": h2, "ops": ops2, "phase": phase, "history": hi})
 			}
 		})
@@ -159,6 +165,24 @@ func screenProps(r *core.Run, prop string) {
 	run(sessionsFor("nodirect"), "nodirect")
 	nh = nhSave
 	os.Unsetenv("TCELL_TRUECOLOR")
+	if prop == "C13" {
+		// which cells a Show writes does not depend on the locale either: a quarter as many
+		// histories on screens that encode for ISO8859-1 (substitutes, ACS glyphs, elided
+		// combining marks), the reference terminal decoding that charset. Sequential pass:
+		// the locale is process-wide.
+		c09locale("en_US.ISO8859-1")
+		ss := sessionsFor("asis")
+		for _, se := range ss {
+			se.dec = xtextDecoder(charmap.ISO8859_1)
+			se.charset = "ISO8859-1"
+		}
+		nh = (nhSave + 3) / 4
+		run(ss, "latin1")
+		nh = nhSave
+		c09locale("C.UTF-8")
+		os.Unsetenv("LANG")
+		os.Unsetenv("LC_CTYPE")
+	}
 }
 
 // c01flip: "after the terminal reports a new size, the same holds even if the terminal's previous
